@@ -10,7 +10,7 @@ use crate::with_spec;
 pub const RULE: &str = "inputs from the reader mix (valid / non-canonical reference encodings / structure-aware mutations / random bytes / adversarial headers / mid-document suffixes) \
 × any subset of the three tolerated error classes × random buffered-master subset × capacity {default, 16..64, len}. Oracle, on the successful items up to the first error: the reference header parser \
 at the reported offset finds the item's id; the value equals the reference decoding of the payload bytes for the spec's type; each non-End item starts exactly where the previous one's header (masters) or payload ended \
-(first one at 0); End items report their Start's offset (0 for implied ancestors); Full items report the master's tag start and their children tile recursively. Non-trivial: >= 3 items checked incl. >= 1 master; distinct by (input bytes, configuration).";
+(first one at 0); End items report their Start's offset (0 for implied ancestors); Full items report the master's tag start and their children tile recursively. Stage offsets_beyond_4GiB: a synthesized stream of 4.06 GiB (1 040 groups of a 4-byte stamp and a 4 MiB payload under one unknown-size master; nothing of it is stored), every item's offset and value against the generator's arithmetic (non-trivial there: items beyond 2^32). Non-trivial: >= 3 items checked incl. >= 1 master; distinct by (input bytes, configuration).";
 
 pub const ASSUMPTIONS: &[&str] = &[
     "statements about bytes after the first error are out of scope",
@@ -86,13 +86,125 @@ fn stage(i: &Input, c: &mut Case) -> Result<(), String> {
     Ok(())
 }
 
-pub const STAGES: &[Stage] = &[Stage { name: "mirror", f: stage }];
+// ---- offsets far into a stream ---------------------------------------------------------------------------------------------------
+
+const FAR_BLOB: u64 = 4 << 20;
+const FAR_HEAD: u64 = 12;
+const FAR_PERIOD: u64 = 8 + 6 + 5 + FAR_BLOB;
+
+/// A synthesized stream (nothing of it is stored): Body with unknown size, then `n` times Group { Stamp = k, Blob = 4 MiB of zeroes }.
+struct FarSource {
+    pos: u64,
+    total: u64,
+    max_read: usize,
+}
+
+fn far_header(k: u64) -> [u8; 19] {
+    let mut h = [0u8; 19];
+    h[..4].copy_from_slice(&[0x1f, 0x43, 0xb6, 0x75]);
+    h[4..8].copy_from_slice(&(0x1000_0000u32 | (FAR_BLOB as u32 + 11)).to_be_bytes());
+    h[8] = 0xe7;
+    h[9] = 0x84;
+    h[10..14].copy_from_slice(&(k as u32).to_be_bytes());
+    h[14] = 0xa3;
+    h[15..19].copy_from_slice(&(0x1000_0000u32 | FAR_BLOB as u32).to_be_bytes());
+    h
+}
+
+impl std::io::Read for FarSource {
+    fn read(&mut self, buf: &mut [u8]) -> std::io::Result<usize> {
+        const HEAD: [u8; 12] = [0x18, 0x53, 0x80, 0x67, 0x01, 0xff, 0xff, 0xff, 0xff, 0xff, 0xff, 0xff];
+        let want = (buf.len().min(self.max_read) as u64).min(self.total - self.pos) as usize;
+        let mut done = 0;
+        while done < want {
+            let p = self.pos;
+            let n;
+            if p < FAR_HEAD {
+                n = (want - done).min((FAR_HEAD - p) as usize);
+                buf[done..done + n].copy_from_slice(&HEAD[p as usize..p as usize + n]);
+            } else {
+                let k = (p - FAR_HEAD) / FAR_PERIOD;
+                let r = (p - FAR_HEAD) % FAR_PERIOD;
+                if r < 19 {
+                    n = (want - done).min((19 - r) as usize);
+                    buf[done..done + n].copy_from_slice(&far_header(k)[r as usize..r as usize + n]);
+                } else {
+                    n = (want - done).min((FAR_PERIOD - r) as usize);
+                    buf[done..done + n].fill(0);
+                }
+            }
+            done += n;
+            self.pos += n as u64;
+        }
+        Ok(want)
+    }
+}
+
+/// Offsets are positions in the stream, however long it is: a stream of more than 4 GiB (1 040 groups with a 4 MiB payload each, under
+/// one unknown-size master), every item's offset and value against the arithmetic of the generator.
+fn stage_far(i: &Input, c: &mut Case) -> Result<(), String> {
+    use crate::model::{Flat, Payload};
+    let groups = i.args()[0];
+    let max_read = i.args()[1] as usize;
+    let total = FAR_HEAD + groups * FAR_PERIOD;
+    let src = FarSource { pos: 0, total, max_read };
+    let mut rd = Rd::<crate::dynspec::RichSpec, FarSource>::new(src, &ReadCfg::default())?;
+    let mut step = |what: &str| -> Result<(Flat, usize), String> {
+        match rd.next() {
+            Step::Item(f, o) => Ok((f, o)),
+            Step::Err(e) => Err(format!("{}: error {}", what, e.short())),
+            Step::Done => Err(format!("{}: iteration ended", what)),
+            Step::Panic(p) => Err(format!("{}: panic {}", what, p)),
+        }
+    };
+    let expect = |what: String, got: (Flat, usize), want: &Flat, off: u64| -> Result<(), String> {
+        if got.1 as u64 != off || &got.0 != want {
+            return Err(format!("{}: got {:?} at offset {}, the stream has {:?} at offset {}", what, got.0, got.1, want, off));
+        }
+        Ok(())
+    };
+    expect("first item".into(), step("first item")?, &Flat::Start(0x18538067), 0)?;
+    let mut far = 0u64;
+    for k in 0..groups {
+        let base = FAR_HEAD + k * FAR_PERIOD;
+        expect(format!("group {}", k), step("group start")?, &Flat::Start(0x1f43b675), base)?;
+        expect(format!("stamp of group {}", k), step("stamp")?, &Flat::Leaf(0xe7, Payload::U(k)), base + 8)?;
+        let (f, o) = step("blob")?;
+        let ok = match &f {
+            Flat::Leaf(0xa3, Payload::B(b)) => b.len() as u64 == FAR_BLOB && b.iter().all(|x| *x == 0),
+            _ => false,
+        };
+        if !ok || o as u64 != base + 14 {
+            return Err(format!("blob of group {}: got {:?} at offset {}, the stream has 4 MiB of zeroes at offset {}", k, f, o, base + 14));
+        }
+        expect(format!("end of group {}", k), step("group end")?, &Flat::End(0x1f43b675), base)?;
+        c.checks += 4;
+        if base + 14 >= 1 << 32 {
+            far += 4;
+        }
+    }
+    expect("end of the stream".into(), step("closing End")?, &Flat::End(0x18538067), 0)?;
+    match rd.next() {
+        Step::Done => {}
+        other => return Err(format!("after the closing End: {}", match other { Step::Item(f, o) => format!("{:?}@{}", f, o), Step::Err(e) => e.short(), Step::Panic(p) => p, Step::Done => unreachable!() })),
+    }
+    c.units = 4 * groups + 2;
+    c.nontrivial_units = far;
+    c.label_n("items_beyond_4GiB", far);
+    c.sample_with(|| format!("{} groups of 4 MiB, {} bytes in all, source reads of at most {} bytes", groups, total, max_read));
+    Ok(())
+}
+
+pub const STAGES: &[Stage] = &[Stage { name: "mirror", f: stage }, Stage { name: "offsets_beyond_4GiB", f: stage_far }];
 
 pub fn run(rc: &mut RunCtx) {
     rc.run_pt(STAGES[0], rc.pick(960_000, 5_000_000), (96, 500));
     for l in ["has_full", "tolerant", "input_mid_document", "input_mutated", "after_compaction", "implied_ancestor_end", "short_reads"] {
         rc.require_label("mirror", l, 10_000);
     }
+    // one stream of 4.06 GiB (quick); thorough: a second one delivered in reads of at most 61 441 bytes
+    let far: Vec<(u64, u64)> = if rc.quick() { vec![(1040, usize::MAX as u64)] } else { vec![(1040, usize::MAX as u64), (1030, 61_441)] };
+    rc.run_indexed(STAGES[1], far.len() as u64, true, &|i| Input::Args(vec![far[i as usize].0, far[i as usize].1]));
     if !rc.quick() {
         rc.run_fuzz(Some(STAGES[0]), 300);
     }
